@@ -1,2 +1,5 @@
 import GfsSpec.Enum
 import GfsSpec.Denote
+import GfsSpec.WF
+import GfsSpec.Grammar
+import GfsSpec.SeqSpec
